@@ -1,289 +1,35 @@
-// Injected as `#[cfg(kani)] mod verif_kani_edit;` -- a child of crate::BUILDER (not crate::functions): the stubs below must
-// name the private `builder::Entry`.  The harnesses call the PUBLIC functions of crate::functions.
+// Injected as `#[cfg(kani)] mod verif_kani_edit;` (child of crate::functions) into a scratch copy of /repo.
+// Bounded twins (level "bounded") of the Verus units edit / sets / contains.  Only the JSON text parser is stubbed; the
+// editing functions, the iterators and builder.rs run UNMODIFIED.  Documents are built by the README layout spec
+// (crate::verif_kani_spec); the output is compared byte for byte with the layout of the expected element list.  Every
+// buffer-writing call gets a NON-EMPTY output buffer: the prior bytes must stay untouched and the appended part must be
+// exactly the expected document (C17).
 //
-// Bounded twins (level "bounded") of the Verus units edit / sets / contains.  The public editing functions are run on
-// documents built by the README layout spec (crate::verif_kani_spec) and their output is compared byte for byte with the
-// layout of the expected element list computed in the harness.  Every buffer-writing call gets a NON-EMPTY output buffer:
-// the prior bytes must stay untouched and the appended part must be exactly the expected document (C17).
-//
-// WHY THE STUBS (measured): builder.rs keeps `Entry` values (a recursive enum with drop glue) in a Vec / BTreeMap on the heap.
-// CBMC constant-propagates heap objects of <= 64 bytes only, so the TAG of an entry read back from a Vec<Entry> with capacity
-// > 2 (or from any BTreeMap node) is unknown during symbolic execution, and CBMC then unfolds the nested-builder arms of
-// `write_entry` and the drop glue of `Entry` recursively on garbage (unwind^depth): `delete_by_index` on a 4-element array
-// with everything concrete does not finish in 400 s.  Therefore
-//   * ArrayBuilder::build_into is replaced by a statement-for-statement, DROP-FREE transliteration (`build_into_nodrop`:
-//     index loop over the borrowed entries, ManuallyDrop; the real reserve_jentries / replace_jentry are kept; the kind of
-//     every entry is CHECKED against the shape announced by the harness instead of being explored);
-//   * ObjectBuilder (a BTreeMap<&str, Entry>) is replaced by a small sorted table with the BTreeMap semantics (ordered by
-//     byte-wise str order, unique keys, last insert wins) and the same build sequence;
-//   * `kb_builder_real_vs_copy*` run the REAL build_into on builders small enough for CBMC and compare with the copies.
-// For the same reason every harness has a CONCRETE skeleton (types, widths, keys, index / position arguments are enumerated
-// as separate concrete paths selected by a symbolic selector); the payload bytes of the values are symbolic.
-#![allow(unused_imports, dead_code, static_mut_refs)]
+// SIZE LIMIT (measured, see the report in harnesses.d/edit.json "bound"): builder.rs keeps `Entry` values (a recursive enum
+// with drop glue) in a Vec / BTreeMap on the heap.  CBMC constant-propagates heap objects of <= 64 bytes only, i.e. a
+// Vec<Entry> of capacity <= 2.  With a larger builder the entry tags are unknown to the symbolic execution, which then
+// unfolds the nested-builder arms of write_entry and the drop glue of Entry recursively on garbage and does not finish.
+// Hence: every ArrayBuilder here has capacity <= 2, the skeleton (types, widths, index / pos) is concrete and enumerated
+// as separate paths, the payload bytes are symbolic.  contains / array_overlap use no builder and are fully symbolic.
+#![allow(unused_imports, dead_code)]
 use super::*;
-use crate::functions::*;
-use crate::keypath::KeyPath;
 use crate::verif_kani_spec::*;
-use crate::{Error, Value};
-use byteorder::{BigEndian, WriteBytesExt};
-use std::borrow::Cow;
-use std::collections::BTreeSet;
 
 /// every harness stubs the JSON text parser: a binary document must never reach the text branch
 pub(crate) fn no_text_e(_buf: &[u8]) -> Result<Value<'_>, Error> {
     panic!("text branch reached with a JSONB argument")
 }
 
-// ------------------------------------------------------------------ drop-free transliterations of builder.rs
-/// preorder list of the entry kinds the harness expects the builders to contain (0 raw, 1 nested array, 2 nested object);
-/// all zero = flat.  A different kind is a harness failure (panic), it is never explored.
-static mut SHAPE: [u8; 16] = [0; 16];
-static mut SPOS: usize = 0;
-
-fn set_shape(s: &[u8]) {
-    unsafe {
-        let mut i = 0;
-        while i < 16 {
-            SHAPE[i] = if i < s.len() { s[i] } else { 0 };
-            i += 1;
-        }
-        SPOS = 0;
-    }
-}
-
-/// builder.rs::write_entry on a borrowed entry
-fn write_entry_ref(buf: &mut Vec<u8>, entry: &Entry<'_>) -> JEntry {
-    let k = unsafe {
-        let k = if SPOS < 16 { SHAPE[SPOS] } else { 0 };
-        SPOS += 1;
-        k
-    };
-    if k == 0 {
-        match entry {
-            Entry::Raw(jentry, data) => {
-                buf.extend_from_slice(data);
-                jentry.clone()
-            }
-            _ => panic!("entry kind differs from the announced shape (raw expected)"),
-        }
-    } else if k == 1 {
-        match entry {
-            Entry::ArrayBuilder(builder) => {
-                let size = builder.build_ref(buf);
-                JEntry::make_container_jentry(size)
-            }
-            _ => panic!("entry kind differs from the announced shape (array builder expected)"),
-        }
-    } else {
-        panic!("nested object builders inside an array builder are handled by the object model only")
-    }
-}
-
-impl<'a> ArrayBuilder<'a> {
-    /// ArrayBuilder::build_into, statement for statement, on a borrowed builder
-    fn build_ref(&self, buf: &mut Vec<u8>) -> usize {
-        let n = self.entries.len();
-        let header = ARRAY_CONTAINER_TAG | n as u32;
-        buf.write_u32::<BigEndian>(header).unwrap();
-
-        let mut array_len = 4 + n * 4;
-        let mut jentry_index = reserve_jentries(buf, n * 4);
-
-        let mut i = 0;
-        while i < n {
-            let jentry = write_entry_ref(buf, &self.entries[i]);
-            array_len += jentry.length as usize;
-            replace_jentry(buf, jentry, &mut jentry_index);
-            i += 1;
-        }
-        array_len
-    }
-
-    /// stub for ArrayBuilder::build_into: the same, and the builder is never dropped
-    pub(crate) fn build_into_nodrop(self, buf: &mut Vec<u8>) -> usize {
-        let this = std::mem::ManuallyDrop::new(self);
-        this.build_ref(buf)
-    }
-
-    /// stub for ArrayBuilder::push_object: the (single) modelled object builder is frozen into a byte image now and
-    /// pushed as a raw container entry
-    pub(crate) fn push_object_model(&mut self, builder: ObjectBuilder<'a>) {
-        std::mem::forget(builder);
-        unsafe {
-            assert!(OB_OPEN, "push_object of a builder that is not the modelled one");
-            OB_OPEN = false;
-            let mut img: Vec<u8> = Vec::new();
-            ob_build(&mut img);
-            let img: &'static [u8] = Box::leak(img.into_boxed_slice());
-            self.entries.push(Entry::Raw(JEntry::make_container_jentry(img.len()), img));
-        }
-    }
-}
-
-// ---- ObjectBuilder model: one live object builder, a sorted table instead of BTreeMap<&str, Entry>
-const OMAX: usize = 6;
-static mut OB_OPEN: bool = false;
-static mut OB_N: usize = 0;
-static mut OB_KEY: [(usize, usize); OMAX] = [(0, 0); OMAX]; // (address, length) of the key bytes
-static mut OB_KIND: [u8; OMAX] = [0; OMAX]; // 0 raw, 1 nested array builder
-static mut OB_JE: [(u32, u32); OMAX] = [(0, 0); OMAX]; // raw: (type_code, length)
-static mut OB_DATA: [(usize, usize); OMAX] = [(0, 0); OMAX]; // raw: (address, length) of the payload; array: address of the leaked builder
-
-unsafe fn bytes_at<'x>(p: (usize, usize)) -> &'x [u8] {
-    std::slice::from_raw_parts(p.0 as *const u8, p.1)
-}
-
-/// -1 / 0 / 1: byte-wise lexicographic order (what Ord for str is)
-fn bytes_cmp(a: &[u8], b: &[u8]) -> i8 {
-    let mut i = 0;
-    while i < a.len() && i < b.len() {
-        if a[i] != b[i] {
-            return if a[i] < b[i] { -1 } else { 1 };
-        }
-        i += 1;
-    }
-    if a.len() < b.len() { -1 } else if a.len() > b.len() { 1 } else { 0 }
-}
-
-/// BTreeMap::insert on the table: position by key order, an equal key is replaced
-unsafe fn ob_insert(key: &str, kind: u8, je: (u32, u32), data: (usize, usize)) {
-    assert!(OB_OPEN, "more than one live object builder is not modelled");
-    let kb = key.as_bytes();
-    let mut p = 0;
-    let mut found = false;
-    while p < OB_N {
-        let c = bytes_cmp(bytes_at(OB_KEY[p]), kb);
-        if c == 0 {
-            found = true;
-            break;
-        }
-        if c > 0 {
-            break;
-        }
-        p += 1;
-    }
-    if !found {
-        assert!(OB_N < OMAX);
-        let mut j = OB_N;
-        while j > p {
-            OB_KEY[j] = OB_KEY[j - 1];
-            OB_KIND[j] = OB_KIND[j - 1];
-            OB_JE[j] = OB_JE[j - 1];
-            OB_DATA[j] = OB_DATA[j - 1];
-            j -= 1;
-        }
-        OB_N += 1;
-    }
-    OB_KEY[p] = (kb.as_ptr() as usize, kb.len());
-    OB_KIND[p] = kind;
-    OB_JE[p] = je;
-    OB_DATA[p] = data;
-}
-
-/// ObjectBuilder::build_into on the table (same statement sequence: header, reserve, keys, values)
-unsafe fn ob_build(buf: &mut Vec<u8>) -> usize {
-    let n = OB_N;
-    let header = OBJECT_CONTAINER_TAG | n as u32;
-    buf.write_u32::<BigEndian>(header).unwrap();
-
-    let mut object_len = 4 + n * 8;
-    let mut jentry_index = reserve_jentries(buf, n * 8);
-
-    let mut i = 0;
-    while i < n {
-        let key = bytes_at(OB_KEY[i]);
-        let key_len = key.len();
-        object_len += key_len;
-        buf.extend_from_slice(key);
-        let jentry = JEntry::make_string_jentry(key_len);
-        replace_jentry(buf, jentry, &mut jentry_index);
-        i += 1;
-    }
-    i = 0;
-    while i < n {
-        let jentry = if OB_KIND[i] == 0 {
-            buf.extend_from_slice(bytes_at(OB_DATA[i]));
-            JEntry { type_code: OB_JE[i].0, length: OB_JE[i].1 }
-        } else {
-            let b = &*(OB_DATA[i].0 as *const ArrayBuilder<'static>);
-            let size = b.build_ref(buf);
-            JEntry::make_container_jentry(size)
-        };
-        object_len += jentry.length as usize;
-        replace_jentry(buf, jentry, &mut jentry_index);
-        i += 1;
-    }
-    object_len
-}
-
-impl<'a> ObjectBuilder<'a> {
-    pub(crate) fn new_model() -> Self {
-        unsafe {
-            assert!(!OB_OPEN, "more than one live object builder is not modelled");
-            OB_OPEN = true;
-            OB_N = 0;
-        }
-        Self { entries: BTreeMap::new() }
-    }
-    pub(crate) fn push_raw_model(&mut self, key: &'a str, jentry: JEntry, data: &'a [u8]) {
-        unsafe { ob_insert(key, 0, (jentry.type_code, jentry.length), (data.as_ptr() as usize, data.len())) }
-    }
-    pub(crate) fn push_array_model(&mut self, key: &'a str, builder: ArrayBuilder<'a>) {
-        let b: *mut ArrayBuilder<'a> = Box::into_raw(Box::new(builder)); // leaked on purpose (never dropped)
-        unsafe { ob_insert(key, 1, (0, 0), (b as usize, 0)) }
-    }
-    pub(crate) fn push_object_model(&mut self, _key: &'a str, _builder: ObjectBuilder<'a>) {
-        panic!("an object builder nested in an object builder is not modelled")
-    }
-    pub(crate) fn build_into_model(self, buf: &mut Vec<u8>) -> usize {
-        std::mem::forget(self);
-        unsafe {
-            assert!(OB_OPEN);
-            OB_OPEN = false;
-            ob_build(buf)
-        }
-    }
-}
-
-// ------------------------------------------------------------------ helpers
 const PRE0: u8 = 0xAA;
 const PRE1: u8 = 0xBB;
-
 /// the non-empty output buffer handed to every buffer-writing function
-fn out_buf() -> Vec<u8> {
-    vec![PRE0, PRE1]
-}
-
+fn out_buf() -> Vec<u8> { vec![PRE0, PRE1] }
 /// buf == [PRE0, PRE1] ++ want
 fn appended(buf: &Vec<u8>, want: &Buf) -> bool {
     buf.len() == 2 + want.n && buf[0] == PRE0 && buf[1] == PRE1 && want.eq_slice(&buf[2..])
 }
-
 /// buf == [PRE0, PRE1] (nothing appended)
-fn untouched(buf: &Vec<u8>) -> bool {
-    buf.len() == 2 && buf[0] == PRE0 && buf[1] == PRE1
-}
-
-const LMAX: usize = 8;
-/// a short list of elements (expected results); only ever indexed / filled with concrete counters
-#[derive(Clone, Copy)]
-struct L {
-    v: [It; LMAX],
-    n: usize,
-}
-impl L {
-    fn new() -> L {
-        L { v: [It { word: 0, pay: [0u8; PAYMAX], plen: 0 }; LMAX], n: 0 }
-    }
-    fn push(&mut self, it: It) {
-        assert!(self.n < LMAX);
-        self.v[self.n] = it;
-        self.n += 1;
-    }
-    fn items(&self) -> &[It] {
-        &self.v[..self.n]
-    }
-}
+fn untouched(buf: &Vec<u8>) -> bool { buf.len() == 2 && buf[0] == PRE0 && buf[1] == PRE1 }
 
 // concrete-type elements (the entry word is a constant, payload bytes symbolic)
 fn n2() -> It { sc_num2().it }
@@ -291,645 +37,318 @@ fn f9() -> It { sc_float9().it }
 fn s1() -> It { sc_str1().it }
 fn s2() -> It { sc_str2().it }
 fn nul() -> It { sc_null().it }
-fn tru() -> It { It::from_parts(T_TRUE, &[]) }
-/// a concrete string / key
 fn cs(s: &[u8]) -> It { It::from_parts(T_STRING, s) }
-/// a container document as an element of an enclosing container
 fn elem_of(doc: &Buf) -> It { It::from_parts(T_CONTAINER, doc.as_slice()) }
 
-// ------------------------------------------------------------------ the drop-free copies against the REAL builder
-/// REAL ArrayBuilder::build_into (2 raw entries: small enough for CBMC to resolve) == the copy, into a non-empty buffer
-#[kani::proof]
-#[kani::unwind(12)]
-fn kb_builder_real_vs_copy_array() {
-    let p: [u8; 2] = kani::any();
-    let q: [u8; 1] = kani::any();
-    let mut b1 = ArrayBuilder::new(2);
-    b1.push_raw(JEntry::make_number_jentry(2), &p);
-    b1.push_raw(JEntry::make_string_jentry(1), &q);
-    let mut b2 = ArrayBuilder::new(2);
-    b2.push_raw(JEntry::make_number_jentry(2), &p);
-    b2.push_raw(JEntry::make_string_jentry(1), &q);
-    let mut o1 = out_buf();
-    let mut o2 = out_buf();
-    let l1 = b1.build_into(&mut o1);
-    set_shape(&[]);
-    let l2 = b2.build_into_nodrop(&mut o2);
-    assert!(l1 == l2 && l1 == 15);
-    assert!(o1 == o2);
-    let want = layout_array(&[It::from_parts(T_NUMBER, &p), It::from_parts(T_STRING, &q)]);
-    assert!(appended(&o1, &want));
-}
-
-// ------------------------------------------------------------------ C06/C17 delete_by_index
-fn case_delete_by_index(a: &[It], doc: &Buf, index: i32) {
-    set_shape(&[]);
+// ------------------------------------------------------------------ C06/C17 delete_by_index (2-element arrays)
+/// expected: a without element `eff` (a copy when out of range); a has 2 elements
+fn case_delete_by_index2(a: &[It; 2], doc: &Buf, index: i32) {
     let mut buf = out_buf();
-    let r = delete_by_index(doc.as_slice(), index, &mut buf);
-    assert!(r.is_ok());
-    let n = a.len() as i32;
-    let eff = if index < 0 { n + index } else { index }; // negative counts from the end
-    let mut want = L::new();
-    let mut i = 0;
-    while i < a.len() {
-        if i as i32 != eff { want.push(a[i]); }
-        i += 1;
-    }
-    assert!(want.n == if eff >= 0 && eff < n { a.len() - 1 } else { a.len() }); // out of range: a copy
-    assert!(appended(&buf, &layout_array(want.items())));
+    assert!(delete_by_index(doc.as_slice(), index, &mut buf).is_ok());
+    let eff = if index < 0 { 2 + index } else { index }; // negative counts from the end
+    if eff == 0 { assert!(appended(&buf, &layout_array(&[a[1]]))); }
+    else if eff == 1 { assert!(appended(&buf, &layout_array(&[a[0]]))); }
+    else { assert!(appended(&buf, doc)); }
 }
 
-/// [num2, float9, str1] (payload widths 2,9,1), index in {-6,-4,-3,-2,-1}
+/// [num2, str1], index -3 (out of range), -2, -1
 #[kani::proof]
-#[kani::unwind(50)]
+#[kani::unwind(24)]
 #[kani::stub(crate::parser::parse_value, no_text_e)]
-#[kani::stub(crate::builder::ArrayBuilder::build_into, crate::builder::ArrayBuilder::build_into_nodrop)]
-fn kb_delete_by_index_neg() {
-    let a = [n2(), f9(), s1()];
+fn kb_delete_by_index2_neg() {
+    let a = [n2(), s1()];
     let doc = layout_array(&a);
     let index: i32 = kani::any();
-    kani::assume(index == -6 || (index >= -4 && index <= -1));
-    let mut k = -6;
-    while k <= -1 {
-        if index == k { case_delete_by_index(&a, &doc, k); }
-        k += 1;
-    }
+    kani::assume(index >= -3 && index <= -1);
+    if index == -3 { case_delete_by_index2(&a, &doc, -3); }
+    else if index == -2 { case_delete_by_index2(&a, &doc, -2); }
+    else { case_delete_by_index2(&a, &doc, -1); }
 }
 
-/// [str2, null, num2, str1] (widths 2,0,2,1), index in {0,1,2,3,4,6}
+/// [float9, str2], index 0, 1, 2 (out of range)
 #[kani::proof]
-#[kani::unwind(50)]
+#[kani::unwind(30)]
 #[kani::stub(crate::parser::parse_value, no_text_e)]
-#[kani::stub(crate::builder::ArrayBuilder::build_into, crate::builder::ArrayBuilder::build_into_nodrop)]
-fn kb_delete_by_index_pos() {
-    let a = [s2(), nul(), n2(), s1()];
+fn kb_delete_by_index2_pos() {
+    let a = [f9(), s2()];
     let doc = layout_array(&a);
     let index: i32 = kani::any();
-    kani::assume(index >= 0 && index <= 6 && index != 5);
-    let mut k = 0;
-    while k <= 6 {
-        if index == k { case_delete_by_index(&a, &doc, k); }
-        k += 1;
-    }
+    kani::assume(index >= 0 && index <= 2);
+    if index == 0 { case_delete_by_index2(&a, &doc, 0); }
+    else if index == 1 { case_delete_by_index2(&a, &doc, 1); }
+    else { case_delete_by_index2(&a, &doc, 2); }
 }
 
-/// delete_by_index on an object or a scalar: Err(InvalidJsonType), nothing appended
+/// wrong container kind: Err(InvalidJsonType) / Err(InvalidObject) and nothing appended (symbolic index / flag)
 #[kani::proof]
-#[kani::unwind(50)]
+#[kani::unwind(24)]
 #[kani::stub(crate::parser::parse_value, no_text_e)]
-fn kb_delete_by_index_wrong_kind() {
+fn kb_edit_wrong_kind() {
     let index: i32 = kani::any();
     kani::assume(index >= -6 && index <= 6);
-    let doc = if kani::any() { layout_object(&[cs(b"b")], &[n2()]) } else { layout_scalar(&n2()) };
+    let dobj = layout_object(&[cs(b"b")], &[n2()]);
+    let dsc = layout_scalar(&s2());
+    let darr = layout_array(&[n2()]);
     let mut buf = out_buf();
-    let r = delete_by_index(doc.as_slice(), index, &mut buf);
-    assert!(matches!(r, Err(Error::InvalidJsonType)));
+    assert!(matches!(delete_by_index(dobj.as_slice(), index, &mut buf), Err(Error::InvalidJsonType)));
+    assert!(matches!(delete_by_index(dsc.as_slice(), index, &mut buf), Err(Error::InvalidJsonType)));
+    assert!(matches!(delete_by_name(dsc.as_slice(), "b", &mut buf), Err(Error::InvalidJsonType)));
+    assert!(matches!(object_insert(darr.as_slice(), "b", dsc.as_slice(), kani::any(), &mut buf), Err(Error::InvalidObject)));
+    let p = [KeyPath::Index(index)];
+    assert!(matches!(delete_by_keypath(dsc.as_slice(), p.iter(), &mut buf), Err(Error::InvalidJsonType)));
+    assert!(untouched(&buf));
+    // strip_nulls of a scalar copies it
+    assert!(strip_nulls(dsc.as_slice(), &mut buf).is_ok());
+    assert!(appended(&buf, &dsc));
+}
+
+/// object_insert of an existing key without the update flag: Err(ObjectDuplicateKey), buffer unchanged
+#[kani::proof]
+#[kani::unwind(30)]
+#[kani::stub(crate::parser::parse_value, no_text_e)]
+fn kb_object_insert_duplicate_err() {
+    let doc = layout_object(&[cs(b"b"), cs(b"cc")], &[n2(), s1()]);
+    let nd = layout_scalar(&n2());
+    let mut buf = out_buf();
+    assert!(matches!(object_insert(doc.as_slice(), "b", nd.as_slice(), false, &mut buf), Err(Error::ObjectDuplicateKey)));
+    assert!(matches!(object_insert(doc.as_slice(), "cc", nd.as_slice(), false, &mut buf), Err(Error::ObjectDuplicateKey)));
     assert!(untouched(&buf));
 }
 
-// ------------------------------------------------------------------ C06/C17 array_insert
-/// `list`: the value as a list (a non-array counts as a one-element list); `new_elem`: the new value as an element
-fn case_array_insert(list: &[It], doc: &Buf, new_elem: It, new_doc: &Buf, pos: i32) {
-    set_shape(&[]);
+// ------------------------------------------------------------------ C06/C17 array_insert (result has 2 elements)
+fn case_array_insert1(old: It, doc: &Buf, new_elem: It, new_doc: &Buf, pos: i32) {
     let mut buf = out_buf();
-    let r = array_insert(doc.as_slice(), pos, new_doc.as_slice(), &mut buf);
-    assert!(r.is_ok());
-    let n = list.len() as i32;
-    let p = if pos < 0 { n + pos } else { pos };
-    let p = if p < 0 { 0 } else if p > n { n } else { p }; // clamping
-    let mut want = L::new();
-    let mut i = 0;
-    while i < list.len() {
-        if i as i32 == p { want.push(new_elem); }
-        want.push(list[i]);
-        i += 1;
-    }
-    if p == n { want.push(new_elem); }
-    assert!(want.n == list.len() + 1);
-    assert!(appended(&buf, &layout_array(want.items())));
+    assert!(array_insert(doc.as_slice(), pos, new_doc.as_slice(), &mut buf).is_ok());
+    let p = if pos < 0 { 1 + pos } else { pos };
+    let p = if p < 0 { 0 } else if p > 1 { 1 } else { p }; // clamping to 0..=len
+    if p == 0 { assert!(appended(&buf, &layout_array(&[new_elem, old]))); }
+    else { assert!(appended(&buf, &layout_array(&[old, new_elem]))); }
 }
 
-/// [num2, str1, null] + a new Float64 scalar, pos in {-5,-3,-2,-1}
+/// [num2] + a new str1 scalar, pos -2 (clamped), -1, 0
 #[kani::proof]
-#[kani::unwind(50)]
+#[kani::unwind(24)]
 #[kani::stub(crate::parser::parse_value, no_text_e)]
-#[kani::stub(crate::builder::ArrayBuilder::build_into, crate::builder::ArrayBuilder::build_into_nodrop)]
-fn kb_array_insert_scalar_neg() {
-    let a = [n2(), s1(), nul()];
-    let doc = layout_array(&a);
-    let nv = f9();
+fn kb_array_insert1_front() {
+    let a = n2();
+    let doc = layout_array(&[a]);
+    let nv = s1();
     let nd = layout_scalar(&nv);
     let pos: i32 = kani::any();
-    kani::assume(pos == -5 || (pos >= -3 && pos <= -1));
-    let mut k = -5;
-    while k <= -1 {
-        if pos == k { case_array_insert(&a, &doc, nv, &nd, k); }
-        k += 1;
-    }
+    kani::assume(pos >= -2 && pos <= 0);
+    if pos == -2 { case_array_insert1(a, &doc, nv, &nd, -2); }
+    else if pos == -1 { case_array_insert1(a, &doc, nv, &nd, -1); }
+    else { case_array_insert1(a, &doc, nv, &nd, 0); }
 }
 
-/// [str2, num2, str1] + a new 2-byte number, pos in {0,1,3,5}
+/// [str2] + a new nested container ([num2]) at pos 1 and 3 (clamped); + the object {b: null} at pos 0
 #[kani::proof]
-#[kani::unwind(50)]
+#[kani::unwind(34)]
 #[kani::stub(crate::parser::parse_value, no_text_e)]
-#[kani::stub(crate::builder::ArrayBuilder::build_into, crate::builder::ArrayBuilder::build_into_nodrop)]
-fn kb_array_insert_scalar_pos() {
-    let a = [s2(), n2(), s1()];
-    let doc = layout_array(&a);
-    let nv = n2();
-    let nd = layout_scalar(&nv);
-    let pos: i32 = kani::any();
-    kani::assume(pos == 0 || pos == 1 || pos == 3 || pos == 5);
-    let mut k = 0;
-    while k <= 5 {
-        if pos == k { case_array_insert(&a, &doc, nv, &nd, k); }
-        k += 1;
-    }
-}
-
-/// [num2, float9, null] + a new nested container: the array [str1] at pos -1 / 4, the object {b: null} at pos 1
-#[kani::proof]
-#[kani::unwind(50)]
-#[kani::stub(crate::parser::parse_value, no_text_e)]
-#[kani::stub(crate::builder::ArrayBuilder::build_into, crate::builder::ArrayBuilder::build_into_nodrop)]
-fn kb_array_insert_container() {
-    let a = [n2(), f9(), nul()];
-    let doc = layout_array(&a);
+fn kb_array_insert1_container() {
+    let a = s2();
+    let doc = layout_array(&[a]);
     let sel: u8 = kani::any();
     if sel == 0 {
-        let nd = layout_array(&[s1()]);
-        case_array_insert(&a, &doc, elem_of(&nd), &nd, -1);
+        let nd = layout_array(&[n2()]);
+        case_array_insert1(a, &doc, elem_of(&nd), &nd, 1);
     } else if sel == 1 {
-        let nd = layout_array(&[s1()]);
-        case_array_insert(&a, &doc, elem_of(&nd), &nd, 4);
+        let nd = layout_array(&[n2()]);
+        case_array_insert1(a, &doc, elem_of(&nd), &nd, 3);
     } else {
         let nd = layout_object(&[cs(b"b")], &[nul()]);
-        case_array_insert(&a, &doc, elem_of(&nd), &nd, 1);
+        case_array_insert1(a, &doc, elem_of(&nd), &nd, 0);
     }
 }
 
-/// the value is an object {b: num2} (pos -1, 1) or a bare scalar (pos -2, 0, 2): it is treated as a one-element list
+/// the value is a bare scalar (pos 0, 1) or an object {b: num2} (pos -1): it is treated as a one-element list
 #[kani::proof]
-#[kani::unwind(50)]
+#[kani::unwind(34)]
 #[kani::stub(crate::parser::parse_value, no_text_e)]
-#[kani::stub(crate::builder::ArrayBuilder::build_into, crate::builder::ArrayBuilder::build_into_nodrop)]
 fn kb_array_insert_into_nonarray() {
     let nv = s1();
     let nd = layout_scalar(&nv);
     let sel: u8 = kani::any();
-    kani::assume(sel < 5);
-    if sel < 2 {
-        let doc = layout_object(&[cs(b"b")], &[n2()]);
-        let e = elem_of(&doc);
-        if sel == 0 { case_array_insert(&[e], &doc, nv, &nd, -1); } else { case_array_insert(&[e], &doc, nv, &nd, 1); }
-    } else {
+    if sel == 0 {
         let s = n2();
-        let doc = layout_scalar(&s);
-        if sel == 2 { case_array_insert(&[s], &doc, nv, &nd, -2); }
-        else if sel == 3 { case_array_insert(&[s], &doc, nv, &nd, 0); }
-        else { case_array_insert(&[s], &doc, nv, &nd, 2); }
-    }
-}
-
-// ------------------------------------------------------------------ C06/C17 delete_by_name
-/// arrays with STRING elements: ["@a", <number whose payload bytes are "@a">, "@", "@a", null]; names "@a" (two hits,
-/// the number with identical payload bytes stays), "@" (one hit), "zz" (no hit)
-#[kani::proof]
-#[kani::unwind(50)]
-#[kani::stub(crate::parser::parse_value, no_text_e)]
-#[kani::stub(crate::builder::ArrayBuilder::build_into, crate::builder::ArrayBuilder::build_into_nodrop)]
-fn kb_delete_by_name_array() {
-    let num = It::from_parts(T_NUMBER, &[0x40, 0x61]); // Int64 97: payload bytes == "@a"
-    let a = [cs(b"@a"), num, cs(b"@"), cs(b"@a"), nul()];
-    let doc = layout_array(&a);
-    let sel: u8 = kani::any();
-    kani::assume(sel < 3);
-    set_shape(&[]);
-    let mut buf = out_buf();
-    if sel == 0 {
-        assert!(delete_by_name(doc.as_slice(), "@a", &mut buf).is_ok());
-        assert!(appended(&buf, &layout_array(&[a[1], a[2], a[4]])));
+        case_array_insert1(s, &layout_scalar(&s), nv, &nd, 0);
     } else if sel == 1 {
-        assert!(delete_by_name(doc.as_slice(), "@", &mut buf).is_ok());
-        assert!(appended(&buf, &layout_array(&[a[0], a[1], a[3], a[4]])));
+        let s = f9();
+        case_array_insert1(s, &layout_scalar(&s), nv, &nd, 1);
     } else {
-        assert!(delete_by_name(doc.as_slice(), "zz", &mut buf).is_ok());
-        assert!(appended(&buf, &doc));
+        let doc = layout_object(&[cs(b"b")], &[n2()]);
+        case_array_insert1(elem_of(&doc), &doc, nv, &nd, -1);
     }
 }
 
-const KB: &[u8] = b"b";
-const KCC: &[u8] = b"cc";
-const KDD: &[u8] = b"dd";
-
-/// objects {b: num2, cc: float9, dd: str1} (key widths 1,2,2): names b / cc / dd (first, middle, last member), c and zz (no hit)
+// ------------------------------------------------------------------ C06/C17 concat (result has 2 elements)
+/// [num2] ++ [str1]; scalar ++ [x]; [x] ++ scalar
 #[kani::proof]
-#[kani::unwind(50)]
+#[kani::unwind(30)]
 #[kani::stub(crate::parser::parse_value, no_text_e)]
-#[kani::stub(crate::builder::ObjectBuilder::new, crate::builder::ObjectBuilder::new_model)]
-#[kani::stub(crate::builder::ObjectBuilder::push_raw, crate::builder::ObjectBuilder::push_raw_model)]
-#[kani::stub(crate::builder::ObjectBuilder::build_into, crate::builder::ObjectBuilder::build_into_model)]
-fn kb_delete_by_name_object() {
-    let k = [cs(KB), cs(KCC), cs(KDD)];
-    let v = [n2(), f9(), s1()];
-    let doc = layout_object(&k, &v);
-    let sel: u8 = kani::any();
-    kani::assume(sel < 5);
-    let mut buf = out_buf();
-    if sel == 0 {
-        assert!(delete_by_name(doc.as_slice(), "b", &mut buf).is_ok());
-        assert!(appended(&buf, &layout_object(&[k[1], k[2]], &[v[1], v[2]])));
-    } else if sel == 1 {
-        assert!(delete_by_name(doc.as_slice(), "cc", &mut buf).is_ok());
-        assert!(appended(&buf, &layout_object(&[k[0], k[2]], &[v[0], v[2]])));
-    } else if sel == 2 {
-        assert!(delete_by_name(doc.as_slice(), "dd", &mut buf).is_ok());
-        assert!(appended(&buf, &layout_object(&[k[0], k[1]], &[v[0], v[1]])));
-    } else if sel == 3 {
-        assert!(delete_by_name(doc.as_slice(), "c", &mut buf).is_ok());
-        assert!(appended(&buf, &doc));
-    } else {
-        assert!(delete_by_name(doc.as_slice(), "zz", &mut buf).is_ok());
-        assert!(appended(&buf, &doc));
-    }
-}
-
-/// delete_by_name on a scalar: Err(InvalidJsonType), nothing appended
-#[kani::proof]
-#[kani::unwind(20)]
-#[kani::stub(crate::parser::parse_value, no_text_e)]
-fn kb_delete_by_name_wrong_kind() {
-    let doc = layout_scalar(&s2());
-    let mut buf = out_buf();
-    let r = delete_by_name(doc.as_slice(), "b", &mut buf);
-    assert!(matches!(r, Err(Error::InvalidJsonType)));
-    assert!(untouched(&buf));
-}
-
-// ------------------------------------------------------------------ C06/C17 concat
-/// array ++ array: [num2, str1] ++ [float9, null, str2]
-#[kani::proof]
-#[kani::unwind(50)]
-#[kani::stub(crate::parser::parse_value, no_text_e)]
-#[kani::stub(crate::builder::ArrayBuilder::build_into, crate::builder::ArrayBuilder::build_into_nodrop)]
-fn kb_concat_array_array() {
-    let a = [n2(), s1()];
-    let b = [f9(), nul(), s2()];
-    let (da, db) = (layout_array(&a), layout_array(&b));
-    set_shape(&[]);
-    let mut buf = out_buf();
-    assert!(concat(da.as_slice(), db.as_slice(), &mut buf).is_ok());
-    assert!(appended(&buf, &layout_array(&[a[0], a[1], b[0], b[1], b[2]])));
-}
-
-/// everything else is wrapped: scalar ++ array, array ++ scalar, scalar ++ scalar, object ++ array, array ++ object
-#[kani::proof]
-#[kani::unwind(50)]
-#[kani::stub(crate::parser::parse_value, no_text_e)]
-#[kani::stub(crate::builder::ArrayBuilder::build_into, crate::builder::ArrayBuilder::build_into_nodrop)]
-fn kb_concat_wrap() {
+fn kb_concat_arrays() {
+    let (x, y) = (n2(), s1());
+    let (dx, dy) = (layout_array(&[x]), layout_array(&[y]));
     let s = f9();
     let ds = layout_scalar(&s);
-    let a = [n2(), s1()];
-    let da = layout_array(&a);
-    let dobj = layout_object(&[cs(KB)], &[n2()]);
-    let t = s2();
-    let dt = layout_scalar(&t);
     let sel: u8 = kani::any();
-    kani::assume(sel < 5);
-    set_shape(&[]);
     let mut buf = out_buf();
     if sel == 0 {
-        assert!(concat(ds.as_slice(), da.as_slice(), &mut buf).is_ok());
-        assert!(appended(&buf, &layout_array(&[s, a[0], a[1]])));
+        assert!(concat(dx.as_slice(), dy.as_slice(), &mut buf).is_ok());
+        assert!(appended(&buf, &layout_array(&[x, y])));
     } else if sel == 1 {
-        assert!(concat(da.as_slice(), ds.as_slice(), &mut buf).is_ok());
-        assert!(appended(&buf, &layout_array(&[a[0], a[1], s])));
-    } else if sel == 2 {
+        assert!(concat(ds.as_slice(), dy.as_slice(), &mut buf).is_ok());
+        assert!(appended(&buf, &layout_array(&[s, y])));
+    } else {
+        assert!(concat(dx.as_slice(), ds.as_slice(), &mut buf).is_ok());
+        assert!(appended(&buf, &layout_array(&[x, s])));
+    }
+}
+
+/// scalar ++ scalar; object ++ [x]; scalar ++ object: non-arrays are wrapped
+#[kani::proof]
+#[kani::unwind(40)]
+#[kani::stub(crate::parser::parse_value, no_text_e)]
+fn kb_concat_wrap() {
+    let (s, t) = (s2(), n2());
+    let (ds, dt) = (layout_scalar(&s), layout_scalar(&t));
+    let dobj = layout_object(&[cs(b"b")], &[s1()]);
+    let sel: u8 = kani::any();
+    let mut buf = out_buf();
+    if sel == 0 {
         assert!(concat(ds.as_slice(), dt.as_slice(), &mut buf).is_ok());
         assert!(appended(&buf, &layout_array(&[s, t])));
-    } else if sel == 3 {
-        assert!(concat(dobj.as_slice(), da.as_slice(), &mut buf).is_ok());
-        assert!(appended(&buf, &layout_array(&[elem_of(&dobj), a[0], a[1]])));
+    } else if sel == 1 {
+        let dy = layout_array(&[t]);
+        assert!(concat(dobj.as_slice(), dy.as_slice(), &mut buf).is_ok());
+        assert!(appended(&buf, &layout_array(&[elem_of(&dobj), t])));
     } else {
-        assert!(concat(da.as_slice(), dobj.as_slice(), &mut buf).is_ok());
-        assert!(appended(&buf, &layout_array(&[a[0], a[1], elem_of(&dobj)])));
+        assert!(concat(ds.as_slice(), dobj.as_slice(), &mut buf).is_ok());
+        assert!(appended(&buf, &layout_array(&[s, elem_of(&dobj)])));
     }
 }
 
-/// object ++ object with interleaved keys; on the equal key "cc" the right side wins:
-/// {b: num2, cc: str1} ++ {a: null, cc: num2, d: str1} == {a: null, b: num2, cc: num2', d: str1}; and without a collision
+// ------------------------------------------------------------------ C06/C17 delete_by_name / strip_nulls / keypath on 2-element arrays
+/// ["@a", <Int64 97, payload bytes == "@a">]: "@a" removes the string only; ["@", "@"]: "@" removes both; no hit: a copy
 #[kani::proof]
-#[kani::unwind(50)]
+#[kani::unwind(24)]
 #[kani::stub(crate::parser::parse_value, no_text_e)]
-#[kani::stub(crate::builder::ObjectBuilder::new, crate::builder::ObjectBuilder::new_model)]
-#[kani::stub(crate::builder::ObjectBuilder::push_raw, crate::builder::ObjectBuilder::push_raw_model)]
-#[kani::stub(crate::builder::ObjectBuilder::build_into, crate::builder::ObjectBuilder::build_into_model)]
-fn kb_concat_object_object() {
-    let lk = [cs(KB), cs(KCC)];
-    let lv = [n2(), s1()];
-    let dl = layout_object(&lk, &lv);
-    let mut buf = out_buf();
-    if kani::any() {
-        let rk = [cs(b"a"), cs(KCC), cs(b"d")];
-        let rv = [nul(), n2(), s1()];
-        let dr = layout_object(&rk, &rv);
-        assert!(concat(dl.as_slice(), dr.as_slice(), &mut buf).is_ok());
-        assert!(appended(&buf, &layout_object(&[rk[0], lk[0], rk[1], rk[2]], &[rv[0], lv[0], rv[1], rv[2]])));
-    } else {
-        let rk = [cs(b"c")];
-        let rv = [n2()];
-        let dr = layout_object(&rk, &rv);
-        assert!(concat(dl.as_slice(), dr.as_slice(), &mut buf).is_ok());
-        assert!(appended(&buf, &layout_object(&[lk[0], rk[0], lk[1]], &[lv[0], rv[0], lv[1]])));
-    }
-}
-
-// ------------------------------------------------------------------ C06/C17 object_insert
-/// {b: num2, cc: str1, dd: null} + a NEW key: "a" (smaller than all), "c" (between b and cc), "cd" (between cc and dd),
-/// "e" (larger than all) with a scalar value; and {b, dd} + "c" with a nested array as the value
-#[kani::proof]
-#[kani::unwind(50)]
-#[kani::stub(crate::parser::parse_value, no_text_e)]
-#[kani::stub(crate::builder::ObjectBuilder::new, crate::builder::ObjectBuilder::new_model)]
-#[kani::stub(crate::builder::ObjectBuilder::push_raw, crate::builder::ObjectBuilder::push_raw_model)]
-#[kani::stub(crate::builder::ObjectBuilder::build_into, crate::builder::ObjectBuilder::build_into_model)]
-fn kb_object_insert_new_key() {
-    let k = [cs(KB), cs(KCC), cs(KDD)];
-    let v = [n2(), s1(), nul()];
-    let doc = layout_object(&k, &v);
-    let nv = s2();
-    let nd = layout_scalar(&nv);
-    let flag: bool = kani::any();
+fn kb_delete_by_name_array2() {
+    let num = It::from_parts(T_NUMBER, &[0x40, 0x61]);
     let sel: u8 = kani::any();
-    kani::assume(sel < 5);
     let mut buf = out_buf();
     if sel == 0 {
-        assert!(object_insert(doc.as_slice(), "a", nd.as_slice(), flag, &mut buf).is_ok());
-        assert!(appended(&buf, &layout_object(&[cs(b"a"), k[0], k[1], k[2]], &[nv, v[0], v[1], v[2]])));
+        let doc = layout_array(&[cs(b"@a"), num]);
+        assert!(delete_by_name(doc.as_slice(), "@a", &mut buf).is_ok());
+        assert!(appended(&buf, &layout_array(&[num])));
     } else if sel == 1 {
-        assert!(object_insert(doc.as_slice(), "c", nd.as_slice(), flag, &mut buf).is_ok());
-        assert!(appended(&buf, &layout_object(&[k[0], cs(b"c"), k[1], k[2]], &[v[0], nv, v[1], v[2]])));
-    } else if sel == 2 {
-        assert!(object_insert(doc.as_slice(), "cd", nd.as_slice(), flag, &mut buf).is_ok());
-        assert!(appended(&buf, &layout_object(&[k[0], k[1], cs(b"cd"), k[2]], &[v[0], v[1], nv, v[2]])));
-    } else if sel == 3 {
-        assert!(object_insert(doc.as_slice(), "e", nd.as_slice(), flag, &mut buf).is_ok());
-        assert!(appended(&buf, &layout_object(&[k[0], k[1], k[2], cs(b"e")], &[v[0], v[1], v[2], nv])));
+        let doc = layout_array(&[cs(b"@"), cs(b"@")]);
+        assert!(delete_by_name(doc.as_slice(), "@", &mut buf).is_ok());
+        assert!(appended(&buf, &layout_array(&[])));
     } else {
-        // a nested container as the new value, between the two members of {b: num2, dd: str1}
-        let doc2 = layout_object(&[k[0], k[2]], &[v[0], v[1]]);
-        let na = layout_array(&[n2()]);
-        assert!(object_insert(doc2.as_slice(), "c", na.as_slice(), flag, &mut buf).is_ok());
-        assert!(appended(&buf, &layout_object(&[k[0], cs(b"c"), k[2]], &[v[0], elem_of(&na), v[1]])));
+        let doc = layout_array(&[num, cs(b"@a")]);
+        assert!(delete_by_name(doc.as_slice(), "@", &mut buf).is_ok());
+        assert!(appended(&buf, &doc));
     }
 }
 
-/// an EXISTING key (first / middle / last member): with the update flag the value is replaced, without it
-/// Err(ObjectDuplicateKey) and the buffer is unchanged; a non-object value gives Err(InvalidObject)
+/// strip_nulls keeps array nulls: [null, num2] and [str1, null] unchanged
 #[kani::proof]
-#[kani::unwind(50)]
+#[kani::unwind(24)]
 #[kani::stub(crate::parser::parse_value, no_text_e)]
-#[kani::stub(crate::builder::ObjectBuilder::new, crate::builder::ObjectBuilder::new_model)]
-#[kani::stub(crate::builder::ObjectBuilder::push_raw, crate::builder::ObjectBuilder::push_raw_model)]
-#[kani::stub(crate::builder::ObjectBuilder::build_into, crate::builder::ObjectBuilder::build_into_model)]
-fn kb_object_insert_duplicate() {
-    let k = [cs(KB), cs(KCC), cs(KDD)];
-    let v = [n2(), s1(), nul()];
-    let doc = layout_object(&k, &v);
-    let nv = f9();
-    let nd = layout_scalar(&nv);
-    let sel: u8 = kani::any();
-    kani::assume(sel < 7);
-    let mut buf = out_buf();
-    if sel == 0 {
-        assert!(object_insert(doc.as_slice(), "b", nd.as_slice(), true, &mut buf).is_ok());
-        assert!(appended(&buf, &layout_object(&k, &[nv, v[1], v[2]])));
-    } else if sel == 1 {
-        assert!(object_insert(doc.as_slice(), "cc", nd.as_slice(), true, &mut buf).is_ok());
-        assert!(appended(&buf, &layout_object(&k, &[v[0], nv, v[2]])));
-    } else if sel == 2 {
-        assert!(object_insert(doc.as_slice(), "dd", nd.as_slice(), true, &mut buf).is_ok());
-        assert!(appended(&buf, &layout_object(&k, &[v[0], v[1], nv])));
-    } else if sel == 3 {
-        let r = object_insert(doc.as_slice(), "b", nd.as_slice(), false, &mut buf);
-        assert!(matches!(r, Err(Error::ObjectDuplicateKey)));
-        assert!(untouched(&buf));
-    } else if sel == 4 {
-        let r = object_insert(doc.as_slice(), "cc", nd.as_slice(), false, &mut buf);
-        assert!(matches!(r, Err(Error::ObjectDuplicateKey)));
-        assert!(untouched(&buf));
-    } else if sel == 5 {
-        let r = object_insert(doc.as_slice(), "dd", nd.as_slice(), false, &mut buf);
-        assert!(matches!(r, Err(Error::ObjectDuplicateKey)));
-        assert!(untouched(&buf));
-    } else {
-        let da = layout_array(&[n2()]);
-        let r = object_insert(da.as_slice(), "b", nd.as_slice(), kani::any(), &mut buf);
-        assert!(matches!(r, Err(Error::InvalidObject)));
-        assert!(untouched(&buf));
-    }
-}
-
-// ------------------------------------------------------------------ C06/C17 object_delete / object_pick
-fn case_object_delete_pick(keys: &BTreeSet<&str>, del: [bool; 3]) {
-    let k = [cs(KB), cs(KCC), cs(KDD)];
-    let v = [n2(), s1(), f9()];
-    let doc = layout_object(&k, &v);
-    let (mut dk, mut dv, mut pk, mut pv) = (L::new(), L::new(), L::new(), L::new());
-    let mut i = 0;
-    while i < 3 {
-        if del[i] { pk.push(k[i]); pv.push(v[i]); } else { dk.push(k[i]); dv.push(v[i]); }
-        i += 1;
-    }
-    let mut buf = out_buf();
-    assert!(object_delete(doc.as_slice(), keys, &mut buf).is_ok());
-    assert!(appended(&buf, &layout_object(dk.items(), dv.items())));
-    let mut buf2 = out_buf();
-    assert!(object_pick(doc.as_slice(), keys, &mut buf2).is_ok());
-    assert!(appended(&buf2, &layout_object(pk.items(), pv.items())));
-}
-
-/// {b, cc, dd} with the key sets {cc}, {b, dd}, {zz}: delete keeps the others, pick keeps exactly these
-#[kani::proof]
-#[kani::unwind(50)]
-#[kani::stub(crate::parser::parse_value, no_text_e)]
-#[kani::stub(crate::builder::ObjectBuilder::new, crate::builder::ObjectBuilder::new_model)]
-#[kani::stub(crate::builder::ObjectBuilder::push_raw, crate::builder::ObjectBuilder::push_raw_model)]
-#[kani::stub(crate::builder::ObjectBuilder::build_into, crate::builder::ObjectBuilder::build_into_model)]
-fn kb_object_delete_pick() {
-    let sel: u8 = kani::any();
-    kani::assume(sel < 3);
-    let mut keys: BTreeSet<&str> = BTreeSet::new();
-    if sel == 0 {
-        keys.insert("cc");
-        case_object_delete_pick(&keys, [false, true, false]);
-    } else if sel == 1 {
-        keys.insert("dd");
-        keys.insert("b");
-        case_object_delete_pick(&keys, [true, false, true]);
-    } else {
-        keys.insert("zz");
-        case_object_delete_pick(&keys, [false, false, false]);
-    }
-}
-
-// ------------------------------------------------------------------ C06/C17 strip_nulls
-/// {b: null, cc: [null, num2], dd: str1} -> {cc: [null, num2], dd: str1} and {b: [null, num2], cc: null, dd: null} -> {b: [..]}:
-/// null members go, array nulls stay
-#[kani::proof]
-#[kani::unwind(50)]
-#[kani::stub(crate::parser::parse_value, no_text_e)]
-#[kani::stub(crate::builder::ArrayBuilder::build_into, crate::builder::ArrayBuilder::build_into_nodrop)]
-#[kani::stub(crate::builder::ObjectBuilder::new, crate::builder::ObjectBuilder::new_model)]
-#[kani::stub(crate::builder::ObjectBuilder::push_raw, crate::builder::ObjectBuilder::push_raw_model)]
-#[kani::stub(crate::builder::ObjectBuilder::push_array, crate::builder::ObjectBuilder::push_array_model)]
-#[kani::stub(crate::builder::ObjectBuilder::push_object, crate::builder::ObjectBuilder::push_object_model)]
-#[kani::stub(crate::builder::ObjectBuilder::build_into, crate::builder::ObjectBuilder::build_into_model)]
-fn kb_strip_nulls_object() {
-    let inner = [nul(), n2()];
-    let arr = It::from_parts(T_CONTAINER, layout_array(&inner).as_slice());
-    let k = [cs(KB), cs(KCC), cs(KDD)];
-    set_shape(&[]);
+fn kb_strip_nulls_array2() {
     let mut buf = out_buf();
     if kani::any() {
-        let v = [nul(), arr, s1()];
-        let doc = layout_object(&k, &v);
+        let doc = layout_array(&[nul(), n2()]);
         assert!(strip_nulls(doc.as_slice(), &mut buf).is_ok());
-        assert!(appended(&buf, &layout_object(&[k[1], k[2]], &[v[1], v[2]])));
+        assert!(appended(&buf, &doc));
     } else {
-        let v = [arr, nul(), nul()];
-        let doc = layout_object(&k, &v);
-        assert!(strip_nulls(doc.as_slice(), &mut buf).is_ok());
-        assert!(appended(&buf, &layout_object(&[k[0]], &[v[0]])));
-    }
-}
-
-/// [null, {b: null, c: num2}] -> [null, {c: num2}] (object members inside an array) and
-/// [null, [null, [null]], str1] unchanged (array nulls are kept at every depth)
-#[kani::proof]
-#[kani::unwind(50)]
-#[kani::stub(crate::parser::parse_value, no_text_e)]
-#[kani::stub(crate::builder::ArrayBuilder::build_into, crate::builder::ArrayBuilder::build_into_nodrop)]
-#[kani::stub(crate::builder::ArrayBuilder::push_object, crate::builder::ArrayBuilder::push_object_model)]
-#[kani::stub(crate::builder::ObjectBuilder::new, crate::builder::ObjectBuilder::new_model)]
-#[kani::stub(crate::builder::ObjectBuilder::push_raw, crate::builder::ObjectBuilder::push_raw_model)]
-#[kani::stub(crate::builder::ObjectBuilder::push_array, crate::builder::ObjectBuilder::push_array_model)]
-#[kani::stub(crate::builder::ObjectBuilder::push_object, crate::builder::ObjectBuilder::push_object_model)]
-#[kani::stub(crate::builder::ObjectBuilder::build_into, crate::builder::ObjectBuilder::build_into_model)]
-fn kb_strip_nulls_array() {
-    let mut buf = out_buf();
-    if kani::any() {
-        let num = n2();
-        let obj = layout_object(&[cs(KB), cs(b"c")], &[nul(), num]);
-        let obj2 = layout_object(&[cs(b"c")], &[num]);
-        let doc = layout_array(&[nul(), elem_of(&obj)]);
-        set_shape(&[]); // raw, raw (the frozen object image)
-        assert!(strip_nulls(doc.as_slice(), &mut buf).is_ok());
-        assert!(appended(&buf, &layout_array(&[nul(), elem_of(&obj2)])));
-    } else {
-        let deep = layout_array(&[nul(), elem_of(&layout_array(&[nul()]))]);
-        let doc = layout_array(&[nul(), elem_of(&deep), s1()]);
-        set_shape(&[0, 1, 0, 1, 0, 0]); // raw, array(raw, array(raw)), raw
+        let doc = layout_array(&[s1(), nul()]);
         assert!(strip_nulls(doc.as_slice(), &mut buf).is_ok());
         assert!(appended(&buf, &doc));
     }
 }
 
-/// strip_nulls of a scalar copies it
+/// delete_by_keypath with a one-step index path on [num2, str2]: [0], [-1], [2] (out of range: unchanged)
 #[kani::proof]
-#[kani::unwind(20)]
+#[kani::unwind(24)]
 #[kani::stub(crate::parser::parse_value, no_text_e)]
-fn kb_strip_nulls_scalar() {
-    let doc = if kani::any() { layout_scalar(&nul()) } else { layout_scalar(&n2()) };
-    let mut buf = out_buf();
-    assert!(strip_nulls(doc.as_slice(), &mut buf).is_ok());
-    assert!(appended(&buf, &doc));
-}
-
-// ------------------------------------------------------------------ C06/C17 delete_by_keypath
-/// [num2, [str1, null, num2], str2]: paths [1] / [-3] / [3] (one step: delete, delete from the end, out of range = copy)
-/// and [1, -1] / [1, 0] (two steps into the nested array)
-#[kani::proof]
-#[kani::unwind(50)]
-#[kani::stub(crate::parser::parse_value, no_text_e)]
-#[kani::stub(crate::builder::ArrayBuilder::build_into, crate::builder::ArrayBuilder::build_into_nodrop)]
-fn kb_delete_by_keypath_array() {
-    let inner = [s1(), nul(), n2()];
-    let a = [n2(), It::from_parts(T_CONTAINER, layout_array(&inner).as_slice()), s2()];
+fn kb_delete_by_keypath_array2() {
+    let a = [n2(), s2()];
     let doc = layout_array(&a);
     let sel: u8 = kani::any();
-    kani::assume(sel < 5);
     let mut buf = out_buf();
     if sel == 0 {
-        set_shape(&[]);
-        let p = [KeyPath::Index(1)];
+        let p = [KeyPath::Index(0)];
         assert!(delete_by_keypath(doc.as_slice(), p.iter(), &mut buf).is_ok());
-        assert!(appended(&buf, &layout_array(&[a[0], a[2]])));
+        assert!(appended(&buf, &layout_array(&[a[1]])));
     } else if sel == 1 {
-        set_shape(&[]);
-        let p = [KeyPath::Index(-3)];
+        let p = [KeyPath::Index(-1)];
         assert!(delete_by_keypath(doc.as_slice(), p.iter(), &mut buf).is_ok());
-        assert!(appended(&buf, &layout_array(&[a[1], a[2]])));
-    } else if sel == 2 {
-        let p = [KeyPath::Index(3)];
+        assert!(appended(&buf, &layout_array(&[a[0]])));
+    } else {
+        let p = [KeyPath::Index(2)];
         assert!(delete_by_keypath(doc.as_slice(), p.iter(), &mut buf).is_ok());
         assert!(appended(&buf, &doc));
-    } else if sel == 3 {
-        set_shape(&[0, 1, 0, 0, 0]);
-        let p = [KeyPath::Index(1), KeyPath::Index(-1)];
-        assert!(delete_by_keypath(doc.as_slice(), p.iter(), &mut buf).is_ok());
-        let e = It::from_parts(T_CONTAINER, layout_array(&[inner[0], inner[1]]).as_slice());
-        assert!(appended(&buf, &layout_array(&[a[0], e, a[2]])));
-    } else {
-        set_shape(&[0, 1, 0, 0, 0]);
-        let p = [KeyPath::Index(1), KeyPath::Index(0)];
-        assert!(delete_by_keypath(doc.as_slice(), p.iter(), &mut buf).is_ok());
-        let e = It::from_parts(T_CONTAINER, layout_array(&[inner[1], inner[2]]).as_slice());
-        assert!(appended(&buf, &layout_array(&[a[0], e, a[2]])));
     }
 }
 
-/// {b: num2, cc: [str1, null], dd: null}: paths [cc] (Name), ["dd"] (QuotedName), [zz] (no such member: unchanged),
-/// [cc, 0] (into the nested array), [0] (an index step on an object: unchanged)
+// ------------------------------------------------------------------ C12 contains (no builder involved)
+/// [a, b] contains [c]  <=>  c == a or c == b BY VALUE across encodings: a is an Int64/UInt64 (2 bytes), b a Float64
+/// 1.0..4.0 (9 bytes), c a small Int64/UInt64
 #[kani::proof]
-#[kani::unwind(50)]
+#[kani::unwind(30)]
 #[kani::stub(crate::parser::parse_value, no_text_e)]
-#[kani::stub(crate::builder::ArrayBuilder::build_into, crate::builder::ArrayBuilder::build_into_nodrop)]
-#[kani::stub(crate::builder::ObjectBuilder::new, crate::builder::ObjectBuilder::new_model)]
-#[kani::stub(crate::builder::ObjectBuilder::push_raw, crate::builder::ObjectBuilder::push_raw_model)]
-#[kani::stub(crate::builder::ObjectBuilder::push_array, crate::builder::ObjectBuilder::push_array_model)]
-#[kani::stub(crate::builder::ObjectBuilder::push_object, crate::builder::ObjectBuilder::push_object_model)]
-#[kani::stub(crate::builder::ObjectBuilder::build_into, crate::builder::ObjectBuilder::build_into_model)]
-fn kb_delete_by_keypath_object() {
-    let inner = [s1(), nul()];
-    let k = [cs(KB), cs(KCC), cs(KDD)];
-    let v = [n2(), It::from_parts(T_CONTAINER, layout_array(&inner).as_slice()), nul()];
-    let doc = layout_object(&k, &v);
-    let sel: u8 = kani::any();
-    kani::assume(sel < 5);
-    set_shape(&[]);
-    let mut buf = out_buf();
-    if sel == 0 {
-        let p = [KeyPath::Name(Cow::Borrowed("cc"))];
-        assert!(delete_by_keypath(doc.as_slice(), p.iter(), &mut buf).is_ok());
-        assert!(appended(&buf, &layout_object(&[k[0], k[2]], &[v[0], v[2]])));
-    } else if sel == 1 {
-        let p = [KeyPath::QuotedName(Cow::Borrowed("dd"))];
-        assert!(delete_by_keypath(doc.as_slice(), p.iter(), &mut buf).is_ok());
-        assert!(appended(&buf, &layout_object(&[k[0], k[1]], &[v[0], v[1]])));
-    } else if sel == 2 {
-        let p = [KeyPath::Name(Cow::Borrowed("zz"))];
-        assert!(delete_by_keypath(doc.as_slice(), p.iter(), &mut buf).is_ok());
-        assert!(appended(&buf, &doc));
-    } else if sel == 3 {
-        let p = [KeyPath::Name(Cow::Borrowed("cc")), KeyPath::Index(0)];
-        assert!(delete_by_keypath(doc.as_slice(), p.iter(), &mut buf).is_ok());
-        let e = It::from_parts(T_CONTAINER, layout_array(&[inner[1]]).as_slice());
-        assert!(appended(&buf, &layout_object(&k, &[v[0], e, v[2]])));
-    } else {
-        let p = [KeyPath::Index(0)];
-        assert!(delete_by_keypath(doc.as_slice(), p.iter(), &mut buf).is_ok());
-        assert!(appended(&buf, &doc));
-    }
+fn kb_contains_array_numbers() {
+    let (a, b, c) = (sc_num2(), sc_float9(), sc_num2());
+    let left = layout_array(&[a.it, b.it]);
+    let want = a.num == c.num || b.num == c.num;
+    assert!(contains(left.as_slice(), layout_array(&[c.it]).as_slice()) == want);
+}
+
+/// [a, b] contains the BARE scalar c (a Float64) with a a number and b a 2-byte string; a scalar never contains an array
+#[kani::proof]
+#[kani::unwind(30)]
+#[kani::stub(crate::parser::parse_value, no_text_e)]
+fn kb_contains_array_scalar() {
+    let (a, b, c) = (sc_num2(), sc_str2(), sc_float9());
+    let left = layout_array(&[a.it, b.it]);
+    let right = layout_scalar(&c.it);
+    assert!(contains(left.as_slice(), right.as_slice()) == (a.num == c.num));
+    assert!(!contains(right.as_slice(), left.as_slice()));
+}
+
+/// strings by bytes, types must agree: [str2, num2] contains [str2']  <=>  same two bytes
+#[kani::proof]
+#[kani::unwind(30)]
+#[kani::stub(crate::parser::parse_value, no_text_e)]
+fn kb_contains_array_strings() {
+    let (a, b, c) = (sc_str2(), sc_num2(), sc_str2());
+    let left = layout_array(&[a.it, b.it]);
+    assert!(contains(left.as_slice(), layout_array(&[c.it]).as_slice()) == a.it.same(&c.it));
+}
+
+/// {b: x, cc: y} contains {cc: z}  <=>  y == z by value (y Float64, z Int64/UInt64); {c: z} (no such key) is not contained;
+/// an object never contains an array
+#[kani::proof]
+#[kani::unwind(34)]
+#[kani::stub(crate::parser::parse_value, no_text_e)]
+fn kb_contains_object() {
+    let (x, y, z) = (sc_str1(), sc_float9(), sc_num2());
+    let left = layout_object(&[cs(b"b"), cs(b"cc")], &[x.it, y.it]);
+    assert!(contains(left.as_slice(), layout_object(&[cs(b"cc")], &[z.it]).as_slice()) == (y.num == z.num));
+    assert!(!contains(left.as_slice(), layout_object(&[cs(b"c")], &[z.it]).as_slice()));
+    assert!(!contains(left.as_slice(), layout_array(&[z.it]).as_slice()));
+}
+
+// ------------------------------------------------------------------ C13 array_overlap (no builder involved)
+/// [a, b] overlaps [c]  <=>  c is IDENTICAL (same encoding) to a or b (2-byte numbers with symbolic contents)
+#[kani::proof]
+#[kani::unwind(30)]
+#[kani::stub(crate::parser::parse_value, no_text_e)]
+fn kb_array_overlap() {
+    let (a, b, c) = (n2(), n2(), n2());
+    let left = layout_array(&[a, b]);
+    let want = a.same(&c) || b.same(&c);
+    assert!(array_overlap(left.as_slice(), layout_array(&[c]).as_slice()) == Ok(want));
 }
